@@ -1,2 +1,4 @@
-// Correspondence suite for property C20 lives in harness/hooks/server.rs (it needs the private
-// router / identity-layer types of `crate::net::server`): verif_c20_http.
+// Correspondence suites for property C20 live in harness/hooks/server.rs (they need the private
+// router / identity-layer types and the private fields of `IpaHttpServer` in `crate::net::server`):
+//   verif_c20_http  (module c20)       routers and identity layers in-process
+//   verif_c20_live  (module c20_live)  real servers through IpaHttpServer::start_on, real TLS/HTTP
